@@ -216,7 +216,7 @@ def observe(inp):
     try:
         res = _guarded(lambda: balance_stoichiometry(list(reac), list(prod), substances=subst,
                                                      underdetermined=MODES[inp["mode"]], **kw),
-                       inp.get("timeout"))
+                       inp.get("timeout") or (5 if inp["scale"] >= 10 ** 4 else None))
     except _CallTimeout:
         return {"k": "unencodable", "sig": "call-timeout"}
     except Exception as e:  # the class name is the observation
@@ -444,8 +444,8 @@ def _fine(rng, n_problems):
     """finely resolved fractional compositions (4-5 significant digits, scale 10^4 / 10^5): a small
     integer problem with n species, n-1 keys and a planted positive solution, one or two amounts of
     which are replaced by a nearby fine fraction (the null space stays one-dimensional, its generator
-    mostly positive, its entries large).  Scale 10^5 only in modes True/False (the integer program of
-    mode None takes minutes on such numbers on the unchanged tree)."""
+    mostly positive, its entries large).  Mode None only for two species at scale 10^4 (the integer
+    program of mode None takes minutes on larger numbers on the unchanged tree)."""
     out = []
     while len(out) < n_problems:
         scale = rng.choice([10 ** 4, 10 ** 4, 10 ** 5])
@@ -473,9 +473,9 @@ def _fine(rng, n_problems):
             if v % 10 == 0:
                 v += rng.choice([1, 3, 7])
             comp[k][j] = v
-        for mode in (("True", "False", "None") if scale == 10 ** 4 and npert == 1 else ("True", "False")):
+        for mode in (("True", "False", "None") if scale == 10 ** 4 and npert == 1 and n == 2 else ("True", "False")):
             out.append({"nr": nr, "np": n - nr, "nk": nk, "crow": 0, "scale": scale, "comp": comp,
-                        "mode": mode, "dupl": [], "unclassified": not hadamard_ok(comp), "timeout": 10})
+                        "mode": mode, "dupl": [], "unclassified": not hadamard_ok(comp), "timeout": 3})
     return out[:n_problems]
 
 
